@@ -10,9 +10,22 @@ import (
 
 type checkFn func(r *Report, p *Program, tier string)
 
+// deep is set by the thorough tier: the bounded explorations (datagrams per discovery, iterations of reader and
+// consumer loops, elements of collections of unknown size) are carried one step further. The rules are loop
+// invariant, so the quick tier's bounds already exercise every rule; the deeper bounds enumerate more paths.
+var deep bool
+
+func bound(quick, thorough int) int {
+	if deep {
+		return thorough
+	}
+	return quick
+}
+
 var checks = map[string]checkFn{}
 
 func runCheck(prop, tier string) int {
+	deep = tier == "thorough"
 	fn, ok := checks[prop]
 	if !ok {
 		fmt.Fprintf(os.Stderr, "no check for %s\n", prop)
@@ -53,6 +66,7 @@ func runAll(tier string) int {
 		fmt.Fprintln(os.Stderr, err)
 		return 2
 	}
+	deep = tier == "thorough"
 	ids := []string{}
 	for id := range checks {
 		ids = append(ids, id)
